@@ -234,6 +234,9 @@ pub fn c17_dispatcher(_m: &mut Mon, ctx: &StepCtx, stats: &mut Stats, out: &mut 
                     let who = if *to == dcfg.krp_keeper_address { "keeper" } else if *to == dcfg.bsei_reward_contract { "reward_contract" } else { "other" };
                     let denom = coins.first().map(|c| c.0.clone()).unwrap_or_default();
                     let which = if denom == sd { "stsei_coin" } else { "bsei_coin" };
+                    if atomics(dcfg.krp_keeper_rate) > 0 && atomics(dcfg.krp_keeper_rate) < ONE {
+                        stats.probe("c17_dust_times_rate_below_one");
+                    }
                     viol(out, "C17", "no_zero_transfer", ctx.idx, &format!("dispatcher.DispatchRewards:zero_send:to={}:{}", who, which), format!("dispatcher emitted a transfer of zero {} to {} (keeper rate {})", denom, to, dcfg.krp_keeper_rate));
                 }
             }
